@@ -1108,7 +1108,8 @@ class Server:
 
     @ConnectionConditions(ConnectionConditions.login_required)
     async def pwd(self, connection, rest):
-        code, info = "257", f'"{connection.current_directory}"'
+        directory = str(connection.current_directory).replace('"', '""')
+        code, info = "257", f'"{directory}"'
         connection.response(code, info)
         return True
 
